@@ -94,3 +94,40 @@ PROPS["C23"] = {
     "trusted_base": ["core::sync::atomic operations as modelled by Kani/CBMC"],
     "not_covered": ["mixed widths (num_of_bits != bit size of T for byte-or-wider specs)"],
 }
+
+PROPS["C20"] = {
+    "level": "proof",
+    "anchors": [("meta_byte_lshift", "src/util/metadata/side_metadata/helpers.rs"), ("meta_byte_mask", "src/util/metadata/side_metadata/helpers.rs"),
+                ("address_to_contiguous_meta_address", "src/util/metadata/side_metadata/helpers.rs"),
+                ("compare_exchange_atomic", "src/util/metadata/side_metadata/global.rs"), ("fetch_ops_on_bits", "src/util/metadata/side_metadata/global.rs")],
+    "kani": {"prefix": "c20_", "files": ["c20_side.rs", "side.rs"], "timeout_quick": 900, "timeout_thorough": 2400},
+    "functions": [
+        "helpers::meta_byte_lshift [in-place contract]", "helpers::meta_byte_mask [in-place contract]",
+        "helpers::address_to_contiguous_meta_address [in-place contract]", "helpers::contiguous_meta_address_to_address (inverse)",
+        "SideMetadataSpec::{load, load_atomic, store, store_atomic, set_zero, set_zero_atomic, compare_exchange_atomic, "
+        "fetch_add_atomic, fetch_sub_atomic, fetch_and_atomic, fetch_or_atomic, fetch_update_atomic} for widths 1,2,4 (symbolic), 8,16,32,64 bits",
+        "private: side_metadata_access, fetch_ops_on_bits, assert_value_type (live as an obligation), get_starting_address",
+        "sub-byte load/fetch_or/store additionally verified against the helper *contracts* (stub_verified) instead of their bodies",
+    ],
+    "explanation": "Each operation harness runs the real accessor on a 32-byte fully symbolic metadata window placed at a symbolic, "
+                   "word-aligned position of a symbolic spec's table (symbolic region size 2^0..2^30, offset, global/local, window "
+                   "anywhere in the address space), with a symbolic operated region and a symbolic address inside it. It asserts: "
+                   "result == previous value of that region's field; field afterwards == the operation's arithmetic mod 2^width; "
+                   "every other bit of the window unchanged; a load of any other region returns that region's field. The field "
+                   "position is taken from an independent oracle (index*width), not from mmtk's helpers. Since each operation equals "
+                   "its abstract array operation on an arbitrary image, any history is a composition of abstract operations "
+                   "(induction on history length). Loop-free except std's fetch_update retry loop (one iteration sequentially, "
+                   "unwinding assertion on). The helper contracts are proved for every spec/base/address without a window.",
+    "bounds": ["window of 32 metadata bytes (256/width fields) around an arbitrary position: operations touch one field, so the window "
+               "size only limits which neighbours are observed (all fields sharing a byte/word with the operated one are inside)"],
+    "assumptions": [
+        "operands fit the field width (mmtk's own assert_value_type rejects others; it stays live)",
+        "the metadata bit index of the accessed region fits in usize (metadata table no larger than the address space)",
+        "window placement: metadata offset of the window <= address of the harness buffer (so the stubbed base is non-negative)",
+        "inverse translation only for specs with log_bytes_in_region >= log_num_of_bits (the code subtracts the two)",
+    ],
+    "trusted_base": ["kani::stub of global_side_metadata_base_address (metadata base relocated into the harness buffer)",
+                     "core::sync::atomic as modelled by Kani/CBMC"],
+    "not_covered": ["32-bit chunked local metadata layout (this build is 64-bit)", "set_raw_byte_atomic / load_raw_byte / load_raw_word (raw accessors, not per-field)",
+                    "extreme_assertions sanity table"],
+}
